@@ -71,6 +71,27 @@ var brokenJSON = []string{
 	"{'single': 'quotes'}",
 }
 
+// brokenCopy keeps the identity of a document and makes its spec fail schema conversion.
+func brokenCopy(text string) string {
+	var m map[string]interface{}
+	if err := yaml.Unmarshal([]byte(text), &m); err != nil || m == nil {
+		return ""
+	}
+	if _, ok := m["spec"]; !ok {
+		return ""
+	}
+	if k, _ := m["kind"].(string); strings.HasSuffix(k, "List") {
+		return ""
+	}
+	m["spec"] = "stale broken copy"
+	delete(m, "status")
+	b, err := yaml.Marshal(m)
+	if err != nil {
+		return ""
+	}
+	return string(b)
+}
+
 // metadataLevel: the document's metadata has the wrong shape, which the directory scan itself
 // rejects (the object never reaches the conversion step).
 func metadataLevel(tmpl string) bool {
@@ -143,7 +164,29 @@ func genFaultItems(r *rng, docs []Doc, lay Layout) []faultItem {
 	}
 	for k := 0; k < n; k++ {
 		name := fmt.Sprintf("flt-%d-%d", k, r.intn(10000))
-		switch r.intn(12) {
+		switch r.intn(14) {
+		case 12, 13:
+			// X4 stale broken copy: a document with the identity (kind, namespace, name) of a document of
+			// the base whose spec no longer converts, delivered before or after the good one
+			if len(docs) == 0 || len(lay) == 0 {
+				continue
+			}
+			di := r.intn(len(docs))
+			t := brokenCopy(docs[di].Text)
+			if t == "" {
+				continue
+			}
+			if r.chance(1, 2) {
+				items = append(items, faultItem{Kind: "X4.copy.file", Path: fresh(".yaml"), Text: t, Entries: 1})
+			} else {
+				for fi, f := range lay {
+					for pos, d := range f.Docs {
+						if d == di {
+							items = append(items, faultItem{Kind: "X4.copy.inline", Path: f.Path, Inline: true, File: fi, Pos: pos + r.intn(2), Text: t, Entries: 1})
+						}
+					}
+				}
+			}
 		case 0: // X1 separate file
 			items = append(items, faultItem{Kind: "X1.file", Path: fresh(".yaml"), Text: fmt.Sprintf(pick(r, irrelevantDocs), name)})
 		case 1: // X1 inline
@@ -331,10 +374,18 @@ func c13Judge(c *c13Case, items []faultItem, steps []job.Step, ev []job.Event) (
 	if len(ev) != len(steps) {
 		return "", ""
 	}
-	for i := range ev {
-		if ev[i].Panic != nil {
-			return "", "" // crashes are C12's
+	// a crash is C12's finding; here it only takes the crashed command out of the comparison
+	// (a clause that needs a crashed command is skipped, the others are still judged)
+	bad := func(idx ...int) bool {
+		for _, i := range idx {
+			if i < len(ev) && ev[i].Panic != nil {
+				return true
+			}
 		}
+		return false
+	}
+	if bad(0) {
+		return "", ""
 	}
 	base, baseStop := &ev[0], &ev[5]
 	severeItems, scanItems := 0, 0
@@ -350,6 +401,17 @@ func c13Judge(c *c13Case, items []faultItem, steps []job.Step, ev []job.Event) (
 		// (d) a fatal error always yields an error and no result
 		for _, i := range []int{1, 2, 3, 6, 7} {
 			e := &ev[i]
+			if bad(i) {
+				continue
+			}
+			if i == 3 && severeItems > 0 {
+				// stop-on-error meets the severe item first and stops before the conflict can be
+				// detected: no fatal error occurred in that run. Only a non-empty report is wrong.
+				if e.NConns > 0 {
+					return "d", fmt.Sprintf("%s: %d connections reported for an input with severe items and a fatal conflict", stepDesc(&steps[i]), e.NConns)
+				}
+				continue
+			}
 			if e.OK || e.HasOut || e.NConns > 0 || len(e.DiffRows) > 0 {
 				return "d", fmt.Sprintf("%s: a report was produced although the input has a fatal conflict", stepDesc(&steps[i]))
 			}
@@ -362,6 +424,9 @@ func c13Judge(c *c13Case, items []faultItem, steps []job.Step, ev []job.Event) (
 	// (a) connections and peers unchanged, stop-on-error off
 	for _, i := range []int{1, 2} {
 		e := &ev[i]
+		if bad(i) {
+			continue
+		}
 		if !e.OK {
 			return "a", fmt.Sprintf("%s: fails next to added documents (%s) although the base analyses fine", stepDesc(&steps[i]), e.Err)
 		}
@@ -374,6 +439,9 @@ func c13Judge(c *c13Case, items []faultItem, steps []job.Step, ev []job.Event) (
 	}
 	for _, i := range []int{6, 7} {
 		e := &ev[i]
+		if bad(i) {
+			continue
+		}
 		if !e.OK {
 			return "a", fmt.Sprintf("%s: diff fails next to added documents (%s)", stepDesc(&steps[i]), e.Err)
 		}
@@ -381,7 +449,7 @@ func c13Judge(c *c13Case, items []faultItem, steps []job.Step, ev []job.Event) (
 			return "a", fmt.Sprintf("%s: diff between the directory and itself plus unused documents is not empty: %v", stepDesc(&steps[i]), e.DiffRows)
 		}
 	}
-	if len(ev) > 10 && ev[9].OK {
+	if len(ev) > 10 && ev[9].OK && !bad(9, 10) {
 		e := &ev[10]
 		if !e.OK {
 			return "a", "list --exposure fails next to added documents: " + e.Err
@@ -395,10 +463,13 @@ func c13Judge(c *c13Case, items []faultItem, steps []job.Step, ev []job.Event) (
 		if it.Entries == 0 {
 			continue
 		}
+		if bad(1) {
+			break
+		}
 		if n := entriesNaming(&ev[1], it.Path); n < it.Entries {
 			return "b", fmt.Sprintf("list (directory API): %s item %s has %d severe entries naming it, want at least %d", it.Kind, it.Path, n, it.Entries)
 		}
-		if !it.Scan {
+		if !it.Scan && !bad(2) {
 			if n := entriesNaming(&ev[2], it.Path); n < it.Entries {
 				return "b", fmt.Sprintf("list (ResourceInfos API): %s item %s has %d severe entries naming it, want at least %d", it.Kind, it.Path, n, it.Entries)
 			}
@@ -406,21 +477,21 @@ func c13Judge(c *c13Case, items []faultItem, steps []job.Step, ev []job.Event) (
 	}
 	// (c) stop-on-error: a severe item never leaves a non-empty report
 	if severeItems > 0 {
-		if e := &ev[3]; e.OK && e.NConns > 0 {
+		if e := &ev[3]; !bad(3) && e.OK && e.NConns > 0 {
 			return "c", fmt.Sprintf("list --fail (directory API): %d connections reported although %d severe items are present", e.NConns, severeItems)
 		}
 		if severeItems > scanItems {
 			// the ResourceInfos API only sees conversion failures (the scan is the caller's)
-			if e := &ev[4]; e.OK && e.NConns > 0 && scanItems == 0 {
+			if e := &ev[4]; !bad(4) && e.OK && e.NConns > 0 && scanItems == 0 {
 				return "c", fmt.Sprintf("list stop-on-error (ResourceInfos API): %d connections reported although %d non-convertible items are present", e.NConns, severeItems)
 			}
 		}
-		if e := &ev[8]; e.OK && len(e.DiffRows) > 0 {
+		if e := &ev[8]; !bad(8) && e.OK && len(e.DiffRows) > 0 {
 			return "c", "diff --fail: a non-empty diff was reported although severe items are present"
 		}
 	} else {
 		// nothing severe was added: stop-on-error must behave as on the base
-		if e := &ev[4]; e.OK != baseStop.OK || !sameStrings(e.Conns, baseStop.Conns) {
+		if e := &ev[4]; !bad(4, 5) && (e.OK != baseStop.OK || !sameStrings(e.Conns, baseStop.Conns)) {
 			return "a", "list stop-on-error (ResourceInfos API): result differs from the fault-free directory although nothing severe was added: " + diffStrings(baseStop.Conns, e.Conns)
 		}
 	}
